@@ -401,6 +401,20 @@ class Dag:
             out.append((k, t - 1))
         return out
 
+    def calls(self, k, t):
+        """Calls made by the formula of (k,t), in order, WITH repetitions."""
+        if (k, t) in self.inputs:
+            return []
+        p1, p2, T = self.rp(k)
+        out = []
+        if p1 >= 0:
+            out.append((p1, t))
+        if p2 >= 0:
+            out.append((p2, t))
+        if T and t > 0:
+            out.append((k, t - 1))
+        return out
+
     def closure(self, k, t):
         """All elements evaluated by requesting (k,t) (reflexive-transitive callees), as a list without duplicates."""
         seen = []
